@@ -257,6 +257,10 @@ class FilesystemOnionService(object):
             if uploaded[0] is not None:
                 uploaded[0].addErrback(lambda _: None)
                 uploaded[0].cancel()
+            # ...and it does not exist, so it is not part of the
+            # configuration either
+            if fhs in config.HiddenServices:
+                config.HiddenServices.remove(fhs)
             raise
         yield uploaded[0]
         return fhs
